@@ -27,6 +27,9 @@ pub struct Context {
 
     /// Number of template instantiations we are currently inside
     template_instantiation_depth: u32,
+
+    /// Functions that are called and where - to check they get defined
+    called_functions: Vec<(ir::FunctionId, SourceLocation)>,
 }
 
 /// Limit for template instantiations that require another instantiation
@@ -97,6 +100,7 @@ impl Context {
             declared_default_arguments: HashMap::new(),
             struct_template_data: Vec::new(),
             template_instantiation_depth: 0,
+            called_functions: Vec::new(),
         };
 
         // For each builtin global value
@@ -1697,6 +1701,28 @@ impl Context {
         self.function_to_scope.insert(new_id, new_scope_id);
 
         Some(new_id)
+    }
+
+    /// Remember that a function is called
+    pub fn record_function_call(&mut self, id: ir::FunctionId, location: SourceLocation) {
+        self.called_functions.push((id, location));
+    }
+
+    /// Find the first call to a function that was declared but never defined
+    ///
+    /// Such a function can not be exported so neither can the call
+    pub fn find_call_to_undefined_function(&self) -> Option<(ir::FunctionId, SourceLocation)> {
+        for (id, location) in &self.called_functions {
+            if self
+                .module
+                .function_registry
+                .get_function_implementation(*id)
+                .is_none()
+            {
+                return Some((*id, *location));
+            }
+        }
+        None
     }
 
     /// Construct or build an instantiation of a template function
